@@ -60,7 +60,7 @@ T = {
          "NumPy; closed forms evaluated by the harness; 0 < f < 1e-6 is outside the property's domain (q0 cancellation), not generated", "5/C16"),
  "C17": ("round-trip and isometry monitors on the frame transformations (geodetic/ECEF/ENU/AER/DCA/NED, LLF matrices)",
          "Runtime monitoring: geodetic points stratified over the equator and its 1e-12..1e-5 deg neighbourhood, both poles and their neighbourhood, longitudes 0/+-90/+-180 and heights -10..1000 km are converted geodetic->ECEF (vs an independent closed form)->geodetic and back; random local origins, offsets to 1e6 m and angles over +-360 deg exercise ECEF<->ENU (identity, isometry, origin->0), ENU<->AER (degrees and radians), ENU<->DCA, NED<->ENU (vector and rows) and the LLF rotation matrices (transpose, orthogonal, det +1).",
-         "NumPy; latitude tolerance 1e-7 deg / height 1e-4 m as allowed by the documented 1e-8 rad stopping rule; longitude at the poles compared through the ECEF point", "5/C17"),
+         "NumPy; latitude tolerance 1e-7 deg / height 1e-4 m as allowed by the documented 1e-8 rad stopping rule; longitude judged at the poles too (1e-9 deg: x and y still carry it there)", "5/C17"),
  "C19": ("argument-bytes monitor + repeatability monitor over a registry of ~370 public call specifications (seven argument forms), same-object and changed-in-place twins, result-buffer overwrite, keyword-call twin, concurrent-thread twin with injected yields, write-protect re-run as localiser",
          "Runtime monitoring: every free function of orientation/quaternion/frames/mathfuncs/metrics, every class constructor with its array-valued keywords (q0, P, b0, w0, weights, magnetic_ref, mag_ref, v1, v2, noises), every update/estimate method and Sensors(quaternions=) is called with non-normalised / degree-valued arguments as fresh arrays, as strided views of larger buffers and with one array aliased to two parameters; argument (and buffer) bytes are compared before/after, the call is repeated on the same objects and on pristine copies in the same layout, and a mutation is re-run write-protected to report the source line.",
          "NumPy; only documented array parameters; explicitly in-place operations are exempt; random functions re-seeded", "5/C19"),
